@@ -37,6 +37,32 @@ def c04_internal(tier):
   CHECK(r == (%s > MAX_OF(%s) || %s < MIN_OF(%s)), "would_product_overflow-iff-product-leaves-the-range");
 ''' % (sview(rep, 'm'), prod, rep, prod, rep)
         cases = [('', '1')] if not G.REPS[rep]['signed'] else [('.nonneg', '%s >= 0' % sview(rep, 'x')), ('.neg', '%s < 0' % sview(rep, 'x'))]
+        if rep in ('i32', 'i64'):
+            # signed 32/64-bit: the two symbolic signed divisions against a 128-bit product were undecided for negative x on every back end (i64 even in the thorough tier).
+            # Lemma-instance obligation instead (DESIGN 10.1): the division is uninterpreted, "x*m stays in range" is a specification predicate, and Lean proves the equivalence
+            import lemma as LM
+            from props import c04_lemmas as CL
+            bits_ = G.REPS[rep]['bits']; lm_ = CL.WPO[0] if bits_ == 64 else CL.WPO[1]
+            if rep == 'i32':
+                obs.append(Ob(id='C04.lemmas.would_product_overflow', prop='C04', group='C04.lemmas', kind='S', budget=600, body='', prelude='', wrappers=[], inputs=[],
+                              dfcc=dict(tool='lean', text=LM.lean_file(CL.WPO, CL.WPO_PRELUDE)),
+                              contract='Lean 4 + Mathlib accept: ' + '; '.join('%s (%s)' % (l.name, l.doc) for l in CL.WPO)))
+            obs.append(Ob(id='C04.internal.would_product_overflow.%s' % rep, prop='C04', group='C04.internal', prelude=PRE, wrappers=[inst], inputs=[(us, 'x'), (us, 'm')],
+                          body='''
+  ASSUME(%s >= 1);
+  ASSUME(%s);   /* lemma wpo%d at (x, m) */
+  _Bool r = TARGET(x, m);
+  CHECK((r != 0) == !SPECP_sprodfits%d(x, m), "would_product_overflow-iff-product-leaves-the-range");
+''' % (sview(rep, 'm'), lm_.inst(x='x', m='m'), bits_, bits_),
+                          kind='L', promote=False, budget=300, defs=('LL2C_UF_DIV=1',), needs=('C04.lemmas.would_product_overflow',),
+                          dfcc=dict(target=tgt, contracts={tgt: dict(requires=[], ensures=[], assigns='')},
+                                    native_search=dict(pre='m >= 1', call='au::detail::OverflowChecker<%s,true>::would_product_overflow((%s)x, (%s)m)' % (ct, ct, ct), ret='bool',
+                                                       post='r == (((__int128)(%s)x * (__int128)(%s)m) > (__int128)%d || ((__int128)(%s)x * (__int128)(%s)m) < -(__int128)%d - 1)' % (ct, ct, G.tmax(rep), ct, ct, G.tmax(rep)),
+                                                       adjust='m = (%s)(m %% 2 ? m : (m >> 40)); if ((%s)m < 1) m = 1;' % (us, ct))),
+                          contract='OverflowChecker<%s,true>::would_product_overflow(x, m), for ALL x (negative ones included) and ALL magnitudes m >= 1: true exactly when x*m is outside range(%s); '
+                                   'the signed division is uninterpreted and its arithmetic is lemma wpo%d (Lean); no UB:* (division by zero, MIN / -1)' % (ct, ct, bits_),
+                          functions_under_contract=('au::detail::OverflowChecker<%s,true>::would_product_overflow' % ct,)))
+            cases = []
         for (sfx_, cond_) in cases:
           if tier == 'quick' and sfx_ == '.neg' and rep in ('i32', 'i64'): continue    # signed symbolic division with a negative dividend: thorough tier (long budget)
           obs.append(Ob(id='C04.internal.would_product_overflow.%s%s' % (rep, sfx_), prop='C04', group='C04.internal', prelude=PRE, wrappers=[inst], inputs=[(us, 'x'), (us, 'm')],
